@@ -54,6 +54,7 @@ Definition pstep (w : world) (e : pevent) : option world :=
   | Produce p slot parent confirms id =>
       if negb ((0 <=? p) && (p <? w_n w)) then None else
       if negb (slot mod w_n w =? p) then None else                    (* own slot only *)
+      if negb (0 <=? id) then None else                               (* a hash is never empty *)
       match find_pblock (w_blocks w) id, find_pblock (w_blocks w) parent with
       | Some _, _ => None                                              (* identifiers are hashes: fresh *)
       | None, None => None
